@@ -1,15 +1,16 @@
 """C09 Operators and casts give the specified result at every boundary value, in every usage position.
 Decided by Refine.tla (HiDSem expression semantics = Word.tla); operands are inputs on a boundary grid."""
 import time
-from hv import rt, fam_ops
+from hv import rt, fam_ops, fam_seq
 
 PROP = 'C09'
 
 
 def main(tier, seed):
     t0 = time.time()
-    ws = [2, [3, 4][seed % 2]] if tier == 'quick' else [2, 3, 4]
+    ws = [2, 3] if tier == 'quick' else [2, 3, 4]
     items = fam_ops.ops_family(seed, tier, ws)
+    items += fam_seq.computed_casts(seed, tier)
     return rt.standard(PROP, tier, seed, items,
                        'one program per operator/cast (value, branch, while, negated, !truth_is_defeat in try/undo, '
                        'try/stop and through a defeat function) x operand types x boundary grid pairs; W=2 and one of {3,4} '
